@@ -314,6 +314,22 @@ type evalCtx struct {
 	override map[ssa.Value]*Val
 	pkg      *types.Package
 	specFn   bool
+	inQuant  bool
+}
+
+// heapWF records the type invariant of a value read from the heap by a specification expression
+// (the heap is well-typed in every state); skipped under quantifiers where the term has bound variables.
+func (c *evalCtx) heapWF(t types.Type, term string) {
+	if c.inQuant || t == nil || c.cur == nil {
+		return
+	}
+	e := c.e()
+	key := "wf:" + term
+	if e.declared[key] {
+		return
+	}
+	e.declared[key] = true
+	e.fact(e.wf(t, term, e.next(c.cur)))
 }
 
 func specSort(s string) Sort {
@@ -419,6 +435,7 @@ func (c *evalCtx) ev(x *SExpr) (*Val, error) {
 		return c.bin(x)
 	case "forall", "exists":
 		n := *c
+		n.inQuant = true
 		n.vars = map[string]*Val{}
 		for k, v := range c.vars {
 			n.vars[k] = v
@@ -714,6 +731,7 @@ func (c *evalCtx) sel(x *SExpr) (*Val, error) {
 		if _, isPtr := base.GoT.Underlying().(*types.Pointer); isPtr {
 			comp, cs, _ := e.fieldComp(nt, i)
 			v := &Val{T: sSel(e.get(c.cur, comp, "(Array Int "+cs+")"), base.T), S: cs, GoT: ft}
+			c.heapWF(ft, v.T)
 			// remember location for modifies targets
 			v.Loc = &Loc{Kind: locField, Comp: comp, CS: cs, Base: base.T, GoT: ft, StructKey: key, Field: x.Name}
 			return v, nil
@@ -751,6 +769,7 @@ func (c *evalCtx) index(x *SExpr) (*Val, error) {
 		case *types.Slice:
 			comp, es := e.elemComp(t.Elem())
 			base, idx := "(s-arr "+a.T+")", "(+ (s-off "+a.T+") "+i.T+")"
+			c.heapWF(t.Elem(), sSel(sSel(e.get(c.cur, comp, arrSort(es)), base), idx))
 			return &Val{T: sSel(sSel(e.get(c.cur, comp, arrSort(es)), base), idx), S: es, GoT: t.Elem(),
 				Loc: &Loc{Kind: locElem, Comp: comp, CS: es, Base: base, Idx: idx, GoT: t.Elem()}}, nil
 		case *types.Map:
@@ -915,6 +934,35 @@ func (c *evalCtx) call(x *SExpr) (*Val, error) {
 			}
 		}
 		return nil, fmt.Errorf("unbound:type %s", want)
+	}
+	if pf, ok := e.g.specs.Preds[name]; ok {
+		if len(args) != len(pf.Params) {
+			return nil, fmt.Errorf("pred %s takes %d arguments", name, len(pf.Params))
+		}
+		px, err := parseSpec(pf.Body)
+		if err != nil {
+			return nil, fmt.Errorf("pred %s: %v", name, err)
+		}
+		n := *c
+		n.vars = map[string]*Val{}
+		for k, v := range c.vars {
+			n.vars[k] = v
+		}
+		for i, p := range pf.Params {
+			n.vars[p] = args[i]
+		}
+		// the body must not capture the caller's locals or lets: evaluate with an empty frame view
+		nf := *c.fr
+		nf.env = map[string]*Val{}
+		nf.lets = nil
+		nf.debug = nil
+		nf.fn = nil
+		if nf.specPkg == nil {
+			nf.specPkg = c.pkg
+		}
+		n.fr = &nf
+		n.hdr, n.override = nil, nil
+		return n.ev(px)
 	}
 	if sf, ok := e.g.specs.SpecFns[name]; ok {
 		if len(args) != len(sf.Params) {
